@@ -110,7 +110,8 @@ class SiMonitor:
         if x.dtype == np.float16:
             rtol, atol = 2e-2, 2e-3
         elif x.dtype == np.float32:
-            rtol, atol = 1e-4, 1e-6
+            # computed in float64 and cast once at the end: the float64 tolerances plus the rounding of the cast (below)
+            rtol, atol = 2e-6, 1e-10
         else:
             rtol, atol = 1e-7, 1e-10
         with np.errstate(over="ignore"):
@@ -127,7 +128,13 @@ class SiMonitor:
         if x.dtype in (np.float16, np.float32) and not use_log:
             with np.errstate(over="ignore"):
                 extra = extra + 2 * np.spacing(np.abs(wantc).astype(x.dtype)).astype(np.float64)
-        ok, i, detail = compare_features(got.astype(np.float64), wantc, use_log, config.LOG_FLOOR_VALUE, rtol, atol, 0.0, extra)
+        got64 = got.astype(np.float64)
+        if x.dtype in (np.float16, np.float32):
+            # two quanta of the stored value (in the log domain too, where no relative tolerance on exp() covers them)
+            with np.errstate(all="ignore"):
+                q = 2 * np.spacing(np.abs(wantc).astype(x.dtype)).astype(np.float64)
+            got64 = np.where(np.abs(got64 - wantc) <= q, wantc, got64)
+        ok, i, detail = compare_features(got64, wantc, use_log, config.LOG_FLOOR_VALUE, rtol, atol, 0.0, extra)
         if not ok:
             col = None if i is None else i[1]
             which = "energy" if (energy and col == 0) else "filter %s" % (None if col is None else col - int(energy))
@@ -196,9 +203,18 @@ def _run_case(case, rec, mon=None):
         if dt == np.float16 and kind == "noise_big":
             kind = "noise"
         x = gen.signal(rng, int(N), kind, dt, views=True)
+        if dt == np.float32 and j % 2 == 1 and N:
+            # a loud low tone over noise 120 dB below it: what the quiet bands hold depends on the transform's precision
+            t = np.arange(int(N))
+            x = (1e4 * np.sin(0.03 * t + 0.5) + 1e-2 * rng.standard_normal(int(N))).astype(np.float32)
+            rec.count("float32_signals_with_high_dynamic_range")
         x.setflags(write=False)
         try:
-            if j % 3 == 2:
+            if j % 5 == 4:
+                with monitor.strict_settings():  # settings a user may choose: FP division by zero raises, UserWarnings are errors
+                    comp.compute_full(x)
+                rec.count("calls_under_strict_process_settings")
+            elif j % 3 == 2:
                 comp.compute_full(signal=x)  # the same call spelled with the keyword
             else:
                 comp.compute_full(x)
